@@ -34,6 +34,7 @@ pub fn trusted_base(lang: Lang) -> Vec<&'static str> {
             "C# (§6.4.5.3): an unsuffixed integer literal has the first of int, uint, long, ulong that can hold it; U → uint/ulong, L → long/ulong, UL → ulong; a constant int expression converts implicitly to a narrower integral type when in range",
             "C# (§10.2.3): implicit numeric conversions exist only for value-preserving widenings (sbyte→short/int/long, byte→short/ushort/int/uint/long/ulong, short→int/long, ushort→int/uint/long/ulong, int→long, uint→long/ulong, char→ushort/int/uint/long/ulong)",
             "C#: System.BitConverter.SingleToInt32Bits/Int32BitsToSingle/DoubleToInt64Bits/Int64BitsToDouble (and the UInt32/UInt64 variants) reinterpret the IEEE bits unchanged, including NaN payloads",
+            "C#/Go/D: an explicit conversion from a floating-point to an integer type truncates toward zero; for NaN or a value outside the target range the result is unspecified (C# unchecked), implementation-dependent (Go) or undefined (D) and is modelled as a trap; integer to floating-point conversions round to nearest-even",
             "C#: shift counts are masked to 5 bits (int/uint) or 6 bits (long/ulong); >> is arithmetic on signed and logical on unsigned operands",
         ],
         Lang::Go => vec![
@@ -646,6 +647,34 @@ impl<'a> Cx<'a> {
             }
             (Ty::Int { .. }, Ty::Char) if self.lang == Lang::D => plain(e.map1(to, move |r| int_convert(from, U32, r))),
             (Ty::Char, Ty::Int { .. }) if self.lang == Lang::D => plain(e.map1(to, move |r| int_convert(U32, to, r))),
+            // value conversions between floating point and integer types (all four
+            // languages: truncation toward zero; an unrepresentable value has an
+            // unspecified / implementation-defined result, modelled as a trap)
+            (Ty::F32 | Ty::F64, Ty::Int { .. }) if self.lang != Lang::MoonBit => {
+                let is32 = from == Ty::F32;
+                plain(e.try_map1(to, move |r| {
+                    let f = if is32 { f32::from_bits(r as u32) as f64 } else { f64::from_bits(r) };
+                    let t = f.trunc();
+                    let (lo, hi) = (int_value(to, if to.signed() { 1u64 << (to.bits() - 1) } else { 0 }) as f64, (mask(to.bits()) >> (to.signed() as u32)) as f64);
+                    if t.is_nan() || t < lo || t > hi {
+                        return Err(Trap::Runtime("float to integer conversion of an unrepresentable value (unspecified result)"));
+                    }
+                    Ok(((t as i128) as u64) & mask(to.bits()))
+                }))
+            }
+            (Ty::Int { .. }, Ty::F32 | Ty::F64) if self.lang != Lang::MoonBit => {
+                let to32 = to == Ty::F32;
+                plain(e.map1(to, move |r| {
+                    let v = int_value(from, r);
+                    if to32 {
+                        (v as f32).to_bits() as u64
+                    } else {
+                        (v as f64).to_bits()
+                    }
+                }))
+            }
+            (Ty::F32, Ty::F64) if self.lang != Lang::MoonBit => plain(e.map1(to, |r| (f32::from_bits(r as u32) as f64).to_bits())),
+            (Ty::F64, Ty::F32) if self.lang != Lang::MoonBit => plain(e.map1(to, |r| (f64::from_bits(r) as f32).to_bits() as u64)),
             _ => unknown(format!("conversion from {} to {tn} is not modelled", from.name())),
         }
     }
